@@ -30,7 +30,8 @@ ASSUMPTIONS = ['one solver interface is used for a base model and its rewrites; 
                'tolerance 1e-6 (LP) / 1e-4 (conic)']
 
 RO_REWRITES = ['flip_obj', 'decl_order', 'row_form', 'split_eq', 'xbound_form', 'ybound_loop',
-               'rescale_rows', 'set_args', 'respell', 'row_order', 'shuffle_terms', 'dro_single']
+               'rescale_rows', 'set_args', 'respell', 'row_order', 'shuffle_terms', 'dro_single',
+               'vectorize', 'devectorize']
 
 
 def gen_case(rng, idx, tier):
@@ -49,6 +50,12 @@ def gen_case(rng, idx, tier):
                     v[nme] = int(rng.integers(1, 5))
                 elif nme == 'set_args':
                     v[nme] = int(rng.integers(4))
+                elif nme == 'vectorize':
+                    v['vectorize'] = True
+                    continue
+                elif nme == 'devectorize':
+                    v['vectorize'] = False
+                    continue
                 elif nme in ('row_form', 'respell', 'row_order'):
                     v[nme] = int(rng.integers(1, 1 << 20))
                 else:
